@@ -5,7 +5,11 @@ use std::collections::BTreeMap;
 use std::sync::Mutex;
 use std::time::Instant;
 
-pub const VERIF_DIR: &str = "/verif";
+/// where evidence / replays / known_findings.json live: $VERIF_HOME (set by ./check to its own
+/// directory, so that a snapshot copy writes into the snapshot) or /verif
+pub fn verif_dir() -> String {
+    std::env::var("VERIF_HOME").unwrap_or_else(|_| "/verif".to_string())
+}
 
 #[derive(Clone, Debug)]
 pub struct Violation {
@@ -157,10 +161,10 @@ impl Report {
                 break;
             }
             let cls = v.class.replace('/', "_").replace(' ', "_");
-            let p = format!("{}/replays/{}_{}_{}_{}.json", VERIF_DIR, self.prop, self.tier, cls, i);
+            let p = format!("{}/replays/{}_{}_{}_{}.json", verif_dir(), self.prop, self.tier, cls, i);
             let mut j = v.to_json();
             j["tier"] = json!(self.tier);
-            let _ = std::fs::create_dir_all(format!("{}/replays", VERIF_DIR));
+            let _ = std::fs::create_dir_all(format!("{}/replays", verif_dir()));
             let _ = std::fs::write(&p, serde_json::to_string_pretty(&j).unwrap());
             replay_paths.push(p);
         }
@@ -193,8 +197,8 @@ impl Report {
             println!("DRAW-RESULT {}", summary);
             return if !vacuous.is_empty() { 2 } else if new_violations.is_empty() { 0 } else { 1 };
         }
-        let _ = std::fs::create_dir_all(format!("{}/evidence", VERIF_DIR));
-        let evp = format!("{}/evidence/{}.json", VERIF_DIR, self.prop);
+        let _ = std::fs::create_dir_all(format!("{}/evidence", verif_dir()));
+        let evp = format!("{}/evidence/{}.json", verif_dir(), self.prop);
         if let Err(e) = std::fs::write(&evp, serde_json::to_string_pretty(&ev).unwrap()) {
             eprintln!("MACHINERY-ERROR: cannot write evidence {}: {}", evp, e);
             return 2;
@@ -244,7 +248,7 @@ impl Known {
 }
 
 pub fn load_known() -> Vec<Known> {
-    let p = format!("{}/known_findings.json", VERIF_DIR);
+    let p = format!("{}/known_findings.json", verif_dir());
     let txt = match std::fs::read_to_string(&p) {
         Ok(t) => t,
         Err(_) => return Vec::new(),
@@ -276,8 +280,8 @@ pub fn load_known() -> Vec<Known> {
 /// A search that never returns cannot be unwound: report the hang from a watchdog thread,
 /// write a minimal evidence file and replay artefact, and exit with the violation status.
 pub fn emergency_violation(prop: &str, tier: &str, seed: u64, v: &Violation, states_so_far: u64) -> ! {
-    let p = format!("{}/replays/{}_{}_{}_hang.json", VERIF_DIR, prop, tier, v.class.replace('/', "_"));
-    let _ = std::fs::create_dir_all(format!("{}/replays", VERIF_DIR));
+    let p = format!("{}/replays/{}_{}_{}_hang.json", verif_dir(), prop, tier, v.class.replace('/', "_"));
+    let _ = std::fs::create_dir_all(format!("{}/replays", verif_dir()));
     let _ = std::fs::write(&p, serde_json::to_string_pretty(&v.to_json()).unwrap());
     let ev = json!({
         "property_id": prop, "tier": tier, "seed": seed, "level": "model_checking",
@@ -285,7 +289,7 @@ pub fn emergency_violation(prop: &str, tier: &str, seed: u64, v: &Violation, sta
                      "notes": ["run aborted by the watchdog: a call into the subject did not return"]},
         "assumptions": [], "wall_s": 0.0, "violations": 1
     });
-    let _ = std::fs::write(format!("{}/evidence/{}.json", VERIF_DIR, prop), serde_json::to_string_pretty(&ev).unwrap());
+    let _ = std::fs::write(format!("{}/evidence/{}.json", verif_dir(), prop), serde_json::to_string_pretty(&ev).unwrap());
     println!("  violation class={} seed=\"{}\" :: {}", v.class, v.seed, v.detail);
     println!("VIOLATION property={} replay={}", prop, p);
     std::process::exit(1);
